@@ -136,6 +136,14 @@ impl TlsRecordsParser {
     }
 }
 
+#[cfg(tls_parser_verif)]
+impl TlsRecordsParser {
+    /// Verification-only accessor: the defragmentation buffer (guarded by `--cfg tls_parser_verif`)
+    pub fn verif_defrag_buffer(&self) -> &[u8] {
+        &self.record_defrag_buffer
+    }
+}
+
 #[cfg(test)]
 mod tests {
     use crate::{parse_tls_raw_record, TlsMessageHandshake, TlsVersion};
